@@ -181,11 +181,12 @@ def run(ctx):
             judge(ctx, eng, text, "corpus", corpus.rel(path), dict(o))
     n = ctx.n(500, 16000)
     for j in range(n):
-        nodes = gen.gen_document(r, gen.GenOpts(gated=ctx.gated, p_key=r.choice([0.2, 0.4]), dup=0.0))
+        nodes = gen.gen_document(r, gen.GenOpts(gated=ctx.gated, p_key=r.choice([0.2, 0.4]), dup=0.0,
+                                                symbol_files="symbolset-root-bookkeeping" not in ctx.gated))
         if j % 4 != 3:
             placed = gen.place_comments(nodes, r)
             s = render.Surface(layout="lines", placed_comments=True, eol=r.choice(["\n", "\r\n"]), indent=r.choice(["  ", "\t", ""]),
-                               kwcase=r.choice(["upper", "lower"]))
+                               kwcase=r.choice(["upper", "lower"]), bare=r.choice([0.0, 0.5, 1.0]), quote=r.choice(["dq", "sq"]))
             text = render.render(nodes, s, r).text
             o = dict(r.choice(optsets[:4]))
             judge(ctx, eng, text, "placed", h(text), o, placed=placed)
